@@ -95,6 +95,9 @@ func (o Op) String() string {
 		if o.P != "" {
 			s += " " + o.P
 		}
+		if o.N > 1 {
+			s += fmt.Sprintf(" x%d", o.N)
+		}
 		return s
 	case "craw":
 		return fmt.Sprintf("c%d raw %q", o.C, o.P)
